@@ -32,14 +32,14 @@ fn window_values(width: usize, thorough: bool) -> Vec<Vec<u8>> {
             }
         }
         32 => {
+            let mut half = vec![0xff; 32];
+            half[31] = 0x7f;
+            v.push(half);
             v.push(vec![0; 32]);
             if thorough {
                 let mut one = vec![0; 32];
                 one[0] = 1;
                 v.push(one);
-                let mut half = vec![0xff; 32];
-                half[31] = 0x7f;
-                v.push(half);
             }
         }
         _ => {}
